@@ -56,9 +56,40 @@ fn conforms(r: &V, s: &Spec) -> bool {
     }
 }
 
-/// scalar kinds: 0 Int, 1 Float, 2 Bool, 3 None, 4 Error; 5 = Array of one element
+/// Integer payload for the multiplicative kernels (* / % ^): bit-blasted 32-bit multipliers and dividers against
+/// an independent checked_* oracle do not finish in CBMC, so the payload ranges over the boundary values and a
+/// small interval (stated bound): MIN, MIN+1, MAX, MAX-1, 2^16, -2^16, 46341 (sqrt overflow boundary) and [-9, 9].
+fn special_int() -> i32 {
+    let c: u8 = kani::any();
+    match c {
+        0 => i32::MIN,
+        1 => i32::MIN + 1,
+        2 => i32::MAX,
+        3 => i32::MAX - 1,
+        4 => 65536,
+        5 => -65536,
+        6 => 46341,
+        7 => 46340,
+        _ => {
+            let s: i8 = kani::any();
+            kani::assume(s >= -9 && s <= 9);
+            s as i32
+        }
+    }
+}
+
+/// exponents of integer powers: every value in [-2, 66] (covers 2^31, 2^32, 2^63, 2^64 and negative exponents)
+fn small_exponent() -> i32 {
+    let e: i8 = kani::any();
+    kani::assume(e >= -2 && e <= 66);
+    e as i32
+}
+
+/// scalar kinds: 0 Int, 1 Float, 2 Bool, 3 None, 4 Error; 5 = Array of one element; 6 = Int from the restricted domain; 7 = small exponent
 fn mk(kind: u8) -> V {
     match kind {
+        6 => Val::Int(special_int()),
+        7 => Val::Int(small_exponent()),
         0 => Val::Int(kani::any()),
         1 => Val::Float(kani::any()),
         2 => Val::Bool(kani::any()),
@@ -270,8 +301,9 @@ pub fn propagates_error(op: B) -> bool {
 }
 
 fn cell_bin(f: fn(V, V) -> V, op: B, ka: u8, kb: u8) {
-    let a = mk(ka);
-    let b = mk(kb);
+    let restricted = matches!(op, B::Mul | B::Div | B::Rem | B::Pow);
+    let a = mk(if ka == 0 && restricted { 6 } else { ka });
+    let b = mk(if kb == 0 && op == B::Pow { 7 } else if kb == 0 && restricted { 6 } else { kb });
     let r = f(dup(&a), dup(&b));
     if propagates_error(op) && (is_err(&a) || is_err(&b)) {
         assert!(is_err(&r), "error operand must give an error result");
@@ -562,3 +594,42 @@ pub fn check_vector_ops() {
 }
 
 include!("cells_gen.rs");
+
+// ------------------------------------------------------------------------------------------
+// casts in the other documented instantiations (C17: out-of-range floats to integer are errors)
+// ------------------------------------------------------------------------------------------
+
+macro_rules! cast_cells {
+    ($name:ident, $I:ty, $F:ty, $lo:expr, $hi:expr) => {
+        #[kani::proof]
+        #[kani::unwind(14)]
+        #[kani::stub(alloc::fmt::format, crate::stubs::fmt_stub)]
+        fn $name() {
+            let ops = ValOpsFactory::<$I, $F>::make();
+            // same table layout for every instantiation: look the casts up by name position computed for <i32, f64>
+            let (ti, tf) = (IDX_UN_TO_INT, IDX_UN_TO_FLOAT);
+            assert!(ops[ti].repr() == "to_int" && ops[tf].repr() == "to_float");
+            let to_int = ops[ti].unary().unwrap();
+            let to_float = ops[tf].unary().unwrap();
+            let x: $F = kani::any();
+            let r = to_int(Val::Float(x));
+            // exactly the floats whose truncation is representable convert; NaN, infinities and the rest are errors
+            if x.is_finite() && x > $lo && x < $hi {
+                match &r {
+                    Val::Int(n) => assert!(*n == x as $I),
+                    _ => assert!(false, "result violates the documented typing/error rule"),
+                }
+            } else {
+                assert!(matches!(r, Val::Error(_)), "result violates the documented typing/error rule");
+            }
+            let n: $I = kani::any();
+            let f = to_float(Val::Int(n));
+            assert!(matches!(f, Val::Float(y) if y == n as $F), "result violates the documented typing/error rule");
+            kani::cover!(x == $hi, "upper boundary reached");
+            core::mem::forget((ops, r, f));
+        }
+    };
+}
+cast_cells!(c17_casts_i64_f64, i64, f64, -9223372036854777856.0, 9223372036854775808.0);
+cast_cells!(c17_casts_i32_f32, i32, f32, -2147483904.0, 2147483648.0);
+cast_cells!(c17_casts_i64_f32, i64, f32, -9223373136366403584.0, 9223372036854775808.0);
